@@ -282,3 +282,20 @@ Definition check_wellformed (input : list N) (ok : bool) (err : N) (norm expecte
 (* a malformed string: rejected with the given error by both *)
 Definition check_rejected (input : list N) (ok : bool) (err : N) (norm : list N) (want_err : N) : bool :=
   check_parse input ok err norm && negb ok && N.eqb err want_err.
+
+(* pipeline level: (surface, normalised form) of the tokens inside the numeral *)
+Definition piece_ok (sn : list N * list N) : bool :=
+  let '(mok, merr, mnorm) := parse gen_cfg (fst sn) in
+  mok && N.eqb merr 0 && text_eqb mnorm (snd sn).
+
+(* a well-formed numeral: exactly one token, covering it, whose normalised form is the expected rendering and what the
+   model parser computes *)
+Definition check_joined (num : list N) (pieces : list (list N * list N)) (expected : list N) : bool :=
+  match pieces with
+  | [sn] => text_eqb (fst sn) num && text_eqb (snd sn) expected && piece_ok sn
+  | _ => false
+  end.
+
+(* a malformed string: every piece is an untouched dictionary token or a numeral normalised as the model says *)
+Definition check_pieces (pieces : list (list N * list N)) : bool :=
+  forallb (fun sn => text_eqb (fst sn) (snd sn) || piece_ok sn) pieces.
